@@ -57,6 +57,25 @@ def p1_inventory(ctx, cfgs):
                 key = (root_fn(b.name), s["kind"], s["label"] or s["what"])
                 counts[key] += 1
                 lines[key].append("%s:%d" % (b.file, s["line"]))
+        # a site that moved into a private helper with a single caller is still its caller's site
+        callers = defaultdict(set)
+        for name, tgts in prog.edges().items():
+            for t in tgts:
+                if t in prog.bodies and root_fn(t) != root_fn(name):
+                    callers[root_fn(t)].add(root_fn(name))
+        merged = Counter()
+        mlines = defaultdict(list)
+        for key, n in counts.items():
+            k2 = key
+            hops = 0
+            while k2 not in allowed and hops < 3 and len(callers.get(k2[0], ())) == 1 and not prog.bodies[k2[0]].is_pub if k2[0] in prog.bodies else False:
+                k2 = (next(iter(callers[k2[0]])), k2[1], k2[2])
+                hops += 1
+            if k2 not in allowed:
+                k2 = key
+            merged[k2] += n
+            mlines[k2] += lines[key]
+        counts, lines = merged, mlines
         for key, n in sorted(counts.items()):
             e = allowed.get(key)
             skey = "%s#%s#%s" % key
